@@ -665,6 +665,9 @@ class Substance:
             substance.specific_activity = 1 / value
         else:
             raise ValueError("Specific activity must be in U/g or g/U.")
+        # the same activity has one value however it was spelt ('100 U/mg', '10 ug/U', '100000 U/g': 99999.99999999999
+        # is not another lot) - it is part of what identifies the substance
+        substance.specific_activity = float(f"{substance.specific_activity:.12g}")
 
         return substance
 
